@@ -434,8 +434,9 @@ class Unit:
         a = rf.ct(it.start).start; b = rf.ct(it.end - 1).end
         ed = Edits(rf, a, b)
         _clean_tokens(rf, ed, it.start, it.end, it.attrs, inner_attrs_ok=True, keep_derive=derive)
+        desug = []
         self.pieces.append(Piece('type', ed.render().strip() + '\n', name=selector, origin=self._origin(rel, it),
-                                 sha256=hashlib.sha256(it.raw_text().encode()).hexdigest()))
+                                 sha256=hashlib.sha256(it.raw_text().encode()).hexdigest(), desugared=desug))
         return it
 
     def trait(self, rel, selector, fns, cfg_not=None, extra_members='', supertrait=''):
